@@ -20,7 +20,7 @@
 #include <occa/internal/core/buffer.hpp>
 #include <occa/internal/core/memoryPool.hpp>
 #include <occa/internal/modes.hpp>
-#include "histbfs.hpp"
+#include "histbfs_fork2.hpp"
 
 // A fresh Serial device per System.  occa::device("{mode:'Serial'}") spends ~0.5 ms layering the
 // settings into the device properties; that layering is done once per process (by a normal public
@@ -45,13 +45,14 @@ static const int RESIZE_DELTAS[] = {-1, 1, 5, 12};
 static const int ALIGNS[] = {4, 8, 16};
 static const int MAX_ROOTS = 4, MAX_SLICES = 2, MAX_POOL = 64;
 
-// ---- coverage counters (vacuity guards); appended to $VP_COVER_DIR/cov.<pid> at exit ----------
+// ---- coverage counters (vacuity guards); appended to $VP_COVER_DIR/cov.<driver pid> by every child ----------
 static std::map<std::string, long> &coverMap() { static std::map<std::string, long> m; return m; }
 static void cov(const std::string &k, long n = 1) { coverMap()[k] += n; }
+static long &driverPid() { static long p = 0; return p; }
 static void dumpCover() {
   const char *d = getenv("VP_COVER_DIR");
   if (!d) return;
-  std::string path = std::string(d) + "/cov." + std::to_string((long) getpid());
+  std::string path = std::string(d) + "/cov." + std::to_string(driverPid() ? driverPid() : (long) getpid());
   std::string out;
   for (auto &kv : coverMap()) out += kv.first + " " + std::to_string(kv.second) + "\n";
   int fd = open(path.c_str(), O_WRONLY | O_CREAT | O_APPEND, 0644);
@@ -295,6 +296,7 @@ struct PoolSys {
       if (judge04 && o.k == RESIZE && mustThrow && !threw)
         ctx.fail("resize-below-reserved-accepted", name(o) + " with reserved()=" + std::to_string(rrBefore) + " did not throw");
       if (threw && !(o.k == RESIZE && mustThrow)) cov("unexpected-exception");
+      cov("judged-transitions");
       if (judge03) oracle03(tag);
       if (judge04) oracle04(tag);
       if (ctx.fails.empty()) shapeCoverage();
@@ -423,4 +425,12 @@ struct PoolSys {
   void finish() {}
 };
 
-int main(int argc, char **argv) { return hb::main<PoolSys>(argc, argv); }
+int main(int argc, char **argv) {
+  // crash-contained driver: every state expansion runs in a forked child, which appends its situation
+  // counters to the driver's file before it exits
+  driverPid() = (long) getpid();
+  coverMap();
+  { occa::device warm = freshSerialDevice(); }   // library start-up and the property template happen once, before the forks
+  hbf2::childExitHook() = dumpCover;
+  return hbf2::main<PoolSys>(argc, argv, 120);
+}
